@@ -16,8 +16,8 @@ Definition didjwk_try_from_core (c : list N * list N) : outcome (list N * list N
   if negb (list_eqb (fst c) JWK_METHOD) then Err EMethodName
   else match dj (snd c) with Some _ => Ok c | None => Err EMethodId end.
 Definition didjwk_parse (s : list N) : outcome (list N * list N) did_err := obind (core_did_parse s) didjwk_try_from_core.
-(* serde: Deserialize goes through CoreDID (its serde route is core_did_from_base) and then try_from *)
-Definition didjwk_serde (s : list N) : outcome (list N * list N) did_err := obind (core_did_from_base s) didjwk_try_from_core.
+(* serde: Deserialize goes through CoreDID (deserialised through CoreDID::parse since fix; before that through core_did_from_base) and then try_from *)
+Definition didjwk_serde (s : list N) : outcome (list N * list N) did_err := obind (core_did_parse s) didjwk_try_from_core.
 (* the variant a `#[serde(transparent)]` would give: the CoreDID as it is *)
 Definition didjwk_serde_transparent (s : list N) : outcome (list N * list N) did_err := core_did_from_base s.
 Definition didjwk_jwk (v : list N * list N) : outcome J unit := match dj (snd v) with Some j => Ok j | None => Panic end.
